@@ -333,7 +333,9 @@ class PauliStringLinear(PauliString):
 
         new_combinations = [(c, p) for p, c in summed_coeffs.items() if abs(c) > 1e-12]
         if not new_combinations:
-            return PauliStringLinear([])
+            # a fully cancelling sum is the zero operator on the same qubits, as in simplify()
+            size = self.get_size() if self.get_size() > 0 else other.get_size()
+            return PauliStringLinear([(0.0, 'I' * size)])
         return PauliStringLinear(new_combinations)
 
     def __iadd__(self, other:object) -> Self:
